@@ -20,6 +20,8 @@
        - [transpose_plan]             prover/src/matrix/row_matrix.rs transpose + get_num_batches (with the `min`
                                       bound of the repaired code; [transpose_plan_unbounded] is the code before the fix)
        - [fragment_plan]              prover/src/constraints/{evaluator/default.rs,evaluation_table.rs} fragments
+       - [map_batched], [acc_z_index_batched]  index-batched closures of batch_iter_mut! (commit_to_rows, get_inv_evaluation,
+                                      acc_column with its LOCAL z index)
        - [find_any_sched]             prover/src/channel.rs grind_query_seed
    What is NOT modelled: that rayon's scope/par_iter implement fork-join (all tasks of a phase finish before the
    next phase starts, every task runs exactly once), the Rust memory model for the `&mut` slices aliased through raw
@@ -363,6 +365,19 @@ Definition fragment_plan (concurrent : bool) (ce_domain_size T : nat) : outcome 
        | Panic => Panic
        | Done cs => if length cs =? num_fragments then Done cs else Panic (* result[i] out of bounds in make_fragments *)
        end.
+
+(* ---------------------------------------------------------------- index-batched maps *)
+(* batch_iter_mut! whose closure computes result[batch_offset + i] = f(batch_offset + i)
+   (RowMatrix/ColMatrix::commit_to_rows: f = hash of row; get_inv_evaluation: f = x^a - b at the step) *)
+Definition map_batched {A} (f : nat -> A) (chunks : list (nat * nat)) : list A :=
+  flat_map (fun c => map (fun i => f (fst c + i)) (seq 0 (snd c))) chunks.
+Definition map_serial {A} (f : nat -> A) (n : nat) : list A := map f (seq 0 n).
+
+(* evaluation_table.rs acc_column, transition-constraint branch: batch_iter_mut!(result, 128, ..) and inside a batch
+   `let z = z[i % z.len()]` with the LOCAL index i (the x coordinate uses batch_offset + i); serially i is global *)
+Definition acc_z_index_batched (zl : nat) (chunks : list (nat * nat)) : list nat :=
+  flat_map (fun c => map (fun i => i mod zl) (seq 0 (snd c))) chunks.
+Definition acc_z_index_serial (zl n : nat) : list nat := map (fun i => i mod zl) (seq 0 n).
 
 (* ---------------------------------------------------------------- proof-of-work nonce *)
 Section Nonce.
